@@ -216,3 +216,246 @@ Theorem model_is_source_C06_Sparse : forall A : Arith, @SrcEqSparse.model_is_sou
 Proof. intros A. exact SrcEqSparse.model_is_source_Sparse_lemma. Qed.
 Check model_is_source_C06_Sparse : forall A : Arith, @SrcEqSparse.model_is_source_Sparse A.
 Print Assumptions model_is_source_C06_Sparse.
+
+(* ======================================================================================================
+   C06 (sparse views), duplicate positions -- package dups.  Append to Props/C06.v.
+   The behaviour of src/sparse.rs on storage that holds one position several times, SPECIFIED (until now: tied,
+   model = implementation, but outside every theorem).  For every well-formed storage, duplicates allowed:
+   [dvals s i j] = the values stored for position (i,j), in storage order (= their order in to_triplets).
+     get          returns the FIRST of them  (None when there is none)        get_first_duplicate
+     to_dense     keeps the LAST of them     (zero when there is none)        to_dense_last_duplicate
+     multiply / transpose_multiply work with their SUM (sp_entry)             Props/C07.v sp_entry_is_sum
+   so the views agree at a position iff first = last (= sum) there (views_agree_iff); with no position stored twice
+   the list has at most one element and views_agree follows (views_agree_from_duplicates: the same statement, re-derived).
+     from_triplets  stores the duplicates of a position in the order of the INPUT list (stable sort)    from_triplets_duplicates
+     insert         overwrites the first stored duplicate, leaves the others; an absent position is appended   insert_with_duplicates
+     transpose      keeps the duplicates of every position in their order (stable counting sort)        transpose_duplicates
+                    -- it IS from_triplets of the swapped triplet listing, field by field               transpose_is_stable_sort
+     order_independent with duplicates: construction depends on the input order only through the relative order of the
+                    triplets of one position                                                            from_triplets_same_duplicate_order
+   and every in-range history refines the same history of list operations on the abstract matrix
+   (i,j) |-> list of stored values: sp_refines_map without the NoDupKeys hypothesis                    history_with_duplicates
+   Well-formedness is preserved in all cases (wfS_step, history_total above -- proved with duplicates allowed).
+   Executable instances (a 2x2 storage holding (1,1) three times) and the answers of the Rust executor on the same
+   input: Proofs/SparseDupExamples.v.
+   ====================================================================================================== *)
+From OV Require Import Proofs.SparseDup Proofs.SparseDupOps Proofs.SparseDupHist Proofs.SparseDupTranspose Proofs.SparseDupOrder Proofs.SparseDupExamples.
+
+(* the list of the values stored for (i,j), read off to_triplets: the values of the triplets (i, j, _) in the order of the listing *)
+Theorem dvals_listing : forall (A : Arith) (s : sparse A) i j, j < sp_cols s ->
+  dvals s i j = map (@tval A) (filter (tmatch i j) (ents s)).
+Proof. intros A s i j. exact (dvals_ents s i j). Qed.
+Check dvals_listing : forall (A : Arith) (s : sparse A) i j, j < sp_cols s ->
+  dvals s i j = map (@tval A) (filter (tmatch i j) (ents s)).
+Print Assumptions dvals_listing.
+Example dvals_listing_nonvacuous :   (* position (1,1) of dup_s is stored three times *)
+  1 < sp_cols dup_s /\ length (dvals dup_s 1 1) = 3.
+Proof. split; [cbn; lia|reflexivity]. Qed.
+
+(* get returns the FIRST stored duplicate *)
+Theorem get_first_duplicate : forall (A : Arith) (s : sparse A) i j, wfS s -> i < sp_rows s -> j < sp_cols s ->
+  sp_get s i j = Ok (hd_error (dvals s i j)).
+Proof. intros A s i j. exact (get_first_duplicate_lemma s i j). Qed.
+Check get_first_duplicate : forall (A : Arith) (s : sparse A) i j, wfS s -> i < sp_rows s -> j < sp_cols s ->
+  sp_get s i j = Ok (hd_error (dvals s i j)).
+Print Assumptions get_first_duplicate.
+Example get_first_duplicate_nonvacuous :
+  wfS dup_s /\ 1 < sp_rows dup_s /\ 1 < sp_cols dup_s /\ length (dvals dup_s 1 1) = 3 /\ ~ NoDupKeys dup_s.
+Proof. split; [exact dup_s_wf|]. split; [cbn; lia|]. split; [cbn; lia|]. split; [reflexivity|exact dup_s_has_duplicates]. Qed.
+
+(* to_dense keeps the LAST stored duplicate *)
+Theorem to_dense_last_duplicate : forall (A : Arith) (s : sparse A), wfS s ->
+  exists D, sp_to_dense s = Ok D /\ rows D = sp_rows s /\ cols D = sp_cols s /\
+    forall i j, i < sp_rows s -> j < sp_cols s -> mget D i j = Ok (last (dvals s i j) (@Arith.zero A)).
+Proof. intros A s. exact (to_dense_last_duplicate_lemma s). Qed.
+Check to_dense_last_duplicate : forall (A : Arith) (s : sparse A), wfS s ->
+  exists D, sp_to_dense s = Ok D /\ rows D = sp_rows s /\ cols D = sp_cols s /\
+    forall i j, i < sp_rows s -> j < sp_cols s -> mget D i j = Ok (last (dvals s i j) (@Arith.zero A)).
+Print Assumptions to_dense_last_duplicate.
+Example to_dense_last_duplicate_nonvacuous :
+  wfS dup_s /\ 1 < sp_rows dup_s /\ 1 < sp_cols dup_s /\ length (dvals dup_s 1 1) = 3 /\ ~ NoDupKeys dup_s.
+Proof. split; [exact dup_s_wf|]. split; [cbn; lia|]. split; [cbn; lia|]. split; [reflexivity|exact dup_s_has_duplicates]. Qed.
+
+(* the four views of a well-formed storage, duplicates allowed *)
+Theorem views_with_duplicates : forall (A : Arith) (s : sparse A), wfS s ->
+  sp_to_triplets s = Ok (ents s) /\
+  sp_col_index s = Ok (map (@tcol A) (ents s)) /\
+  exists D, sp_to_dense s = Ok D /\ rows D = sp_rows s /\ cols D = sp_cols s /\
+  forall i j, i < sp_rows s -> j < sp_cols s ->
+    dvals s i j = map (@tval A) (filter (tmatch i j) (ents s)) /\
+    sp_get s i j = Ok (hd_error (dvals s i j)) /\
+    mget D i j = Ok (last (dvals s i j) (@Arith.zero A)) /\
+    sp_entry s i j = suml (dvals s i j).
+Proof. intros A s. exact (views_with_duplicates_lemma s). Qed.
+Check views_with_duplicates : forall (A : Arith) (s : sparse A), wfS s ->
+  sp_to_triplets s = Ok (ents s) /\
+  sp_col_index s = Ok (map (@tcol A) (ents s)) /\
+  exists D, sp_to_dense s = Ok D /\ rows D = sp_rows s /\ cols D = sp_cols s /\
+  forall i j, i < sp_rows s -> j < sp_cols s ->
+    dvals s i j = map (@tval A) (filter (tmatch i j) (ents s)) /\
+    sp_get s i j = Ok (hd_error (dvals s i j)) /\
+    mget D i j = Ok (last (dvals s i j) (@Arith.zero A)) /\
+    sp_entry s i j = suml (dvals s i j).
+Print Assumptions views_with_duplicates.
+Example views_with_duplicates_nonvacuous :
+  wfS dup_s /\ 1 < sp_rows dup_s /\ 1 < sp_cols dup_s /\ length (dvals dup_s 1 1) = 3 /\ ~ NoDupKeys dup_s.
+Proof. split; [exact dup_s_wf|]. split; [cbn; lia|]. split; [cbn; lia|]. split; [reflexivity|exact dup_s_has_duplicates]. Qed.
+
+(* the views agree at a position exactly when first = last (get vs to_dense) and last = sum (to_dense vs the products) *)
+Theorem views_agree_iff : forall (A : Arith) (s : sparse A) (D : matrix A), wfS s -> sp_to_dense s = Ok D ->
+  forall i j, i < sp_rows s -> j < sp_cols s ->
+    ((exists o, sp_get s i j = Ok o /\ mget D i j = Ok (oval o)) <-> hd (@Arith.zero A) (dvals s i j) = last (dvals s i j) (@Arith.zero A)) /\
+    (mget D i j = Ok (sp_entry s i j) <-> last (dvals s i j) (@Arith.zero A) = suml (dvals s i j)).
+Proof. intros A s D. exact (views_agree_iff_lemma s D). Qed.
+Check views_agree_iff : forall (A : Arith) (s : sparse A) (D : matrix A), wfS s -> sp_to_dense s = Ok D ->
+  forall i j, i < sp_rows s -> j < sp_cols s ->
+    ((exists o, sp_get s i j = Ok o /\ mget D i j = Ok (oval o)) <-> hd (@Arith.zero A) (dvals s i j) = last (dvals s i j) (@Arith.zero A)) /\
+    (mget D i j = Ok (sp_entry s i j) <-> last (dvals s i j) (@Arith.zero A) = suml (dvals s i j)).
+Print Assumptions views_agree_iff.
+Example views_agree_iff_nonvacuous :   (* at (1,1) of dup_s first = 2, last = 500, sum = 532: the views disagree there *)
+  wfS dup_s /\ (exists D, sp_to_dense dup_s = Ok D) /\ 1 < sp_rows dup_s /\ 1 < sp_cols dup_s /\
+  flat_q (hd (@Arith.zero AQ) (dvals dup_s 1 1)) <> flat_q (last (dvals dup_s 1 1) (@Arith.zero AQ)) /\
+  flat_q (last (dvals dup_s 1 1) (@Arith.zero AQ)) <> flat_q (suml (dvals dup_s 1 1)).
+Proof. split; [exact dup_s_wf|]. split; [eexists; reflexivity|]. split; [cbn; lia|]. split; [cbn; lia|]. split; vm_compute; discriminate. Qed.
+
+(* views_agree (above), re-derived from the statements with duplicates: under NoDupKeys every list has at most one element *)
+Theorem views_agree_from_duplicates : forall (A : Arith) (s : sparse A), wfS s -> NoDupKeys s ->
+  sp_to_triplets s = Ok (ents s) /\
+  sp_col_index s = Ok (map (@tcol A) (ents s)) /\
+  exists D, sp_to_dense s = Ok D /\ rows D = sp_rows s /\ cols D = sp_cols s /\
+  forall i j, i < sp_rows s -> j < sp_cols s ->
+    (forall v, sp_get s i j = Ok (Some v) <-> In (i, j, v) (ents s)) /\
+    (exists o, sp_get s i j = Ok o /\ mget D i j = Ok (match o with Some v => v | None => @Arith.zero A end)).
+Proof. intros A s. exact (views_agree_rederived_lemma s). Qed.
+Check views_agree_from_duplicates : forall (A : Arith) (s : sparse A), wfS s -> NoDupKeys s ->
+  sp_to_triplets s = Ok (ents s) /\
+  sp_col_index s = Ok (map (@tcol A) (ents s)) /\
+  exists D, sp_to_dense s = Ok D /\ rows D = sp_rows s /\ cols D = sp_cols s /\
+  forall i j, i < sp_rows s -> j < sp_cols s ->
+    (forall v, sp_get s i j = Ok (Some v) <-> In (i, j, v) (ents s)) /\
+    (exists o, sp_get s i j = Ok o /\ mget D i j = Ok (match o with Some v => v | None => @Arith.zero A end)).
+Print Assumptions views_agree_from_duplicates.
+Example views_agree_from_duplicates_nonvacuous :
+  wfS nd_s /\ NoDupKeys nd_s.
+Proof. split; [exact nd_s_wf|exact nd_s_nodup]. Qed.
+
+(* from_triplets: the duplicates of a position are stored in the order of the input list; get picks the first input triplet with that (row, col), to_dense the last, the products their sum *)
+Theorem from_triplets_duplicates : forall (A : Arith) r c (ts : list (triplet A)),
+  (forall t, In t ts -> trow t < r /\ tcol t < c) ->
+  exists s D, sp_from_triplets r c ts = Ok s /\ wfS s /\ sp_rows s = r /\ sp_cols s = c /\
+    sp_to_dense s = Ok D /\
+    forall i j, i < r -> j < c ->
+      dvals s i j = map (@tval A) (filter (tmatch i j) ts) /\
+      sp_get s i j = Ok (hd_error (map (@tval A) (filter (tmatch i j) ts))) /\
+      mget D i j = Ok (last (map (@tval A) (filter (tmatch i j) ts)) (@Arith.zero A)) /\
+      sp_entry s i j = suml (map (@tval A) (filter (tmatch i j) ts)).
+Proof. intros A r c ts. exact (from_triplets_duplicates_lemma r c ts). Qed.
+Check from_triplets_duplicates : forall (A : Arith) r c (ts : list (triplet A)),
+  (forall t, In t ts -> trow t < r /\ tcol t < c) ->
+  exists s D, sp_from_triplets r c ts = Ok s /\ wfS s /\ sp_rows s = r /\ sp_cols s = c /\
+    sp_to_dense s = Ok D /\
+    forall i j, i < r -> j < c ->
+      dvals s i j = map (@tval A) (filter (tmatch i j) ts) /\
+      sp_get s i j = Ok (hd_error (map (@tval A) (filter (tmatch i j) ts))) /\
+      mget D i j = Ok (last (map (@tval A) (filter (tmatch i j) ts)) (@Arith.zero A)) /\
+      sp_entry s i j = suml (map (@tval A) (filter (tmatch i j) ts)).
+Print Assumptions from_triplets_duplicates.
+Example from_triplets_duplicates_nonvacuous :   (* dup_ts lists (1,1) three times, not adjacent *)
+  (forall t, In t dup_ts -> trow t < 2 /\ tcol t < 2) /\ length (filter (tmatch 1 1) dup_ts) = 3.
+Proof. split; [exact dup_ts_in_range|reflexivity]. Qed.
+
+(* insert: the first stored duplicate of the target is overwritten, the others stay; an absent target is appended; every other position keeps its list.  (wfS of the result: also wfS_step above) *)
+Theorem insert_with_duplicates : forall (A : Arith) (s : sparse A) i j (v : A), wfS s -> i < sp_rows s -> j < sp_cols s ->
+  exists s', sp_insert s i j v = Ok s' /\ wfS s' /\ sp_rows s' = sp_rows s /\ sp_cols s' = sp_cols s /\
+    forall i' j', i' < sp_rows s -> j' < sp_cols s ->
+      dvals s' i' j' = if (i' =? i) && (j' =? j) then v :: tl (dvals s i j) else dvals s i' j'.
+Proof. intros A s i j v. exact (insert_with_duplicates_lemma s i j v). Qed.
+Check insert_with_duplicates : forall (A : Arith) (s : sparse A) i j (v : A), wfS s -> i < sp_rows s -> j < sp_cols s ->
+  exists s', sp_insert s i j v = Ok s' /\ wfS s' /\ sp_rows s' = sp_rows s /\ sp_cols s' = sp_cols s /\
+    forall i' j', i' < sp_rows s -> j' < sp_cols s ->
+      dvals s' i' j' = if (i' =? i) && (j' =? j) then v :: tl (dvals s i j) else dvals s i' j'.
+Print Assumptions insert_with_duplicates.
+Example insert_with_duplicates_nonvacuous :
+  wfS dup_s /\ 1 < sp_rows dup_s /\ 1 < sp_cols dup_s /\ length (dvals dup_s 1 1) = 3 /\ ~ NoDupKeys dup_s.
+Proof. split; [exact dup_s_wf|]. split; [cbn; lia|]. split; [cbn; lia|]. split; [reflexivity|exact dup_s_has_duplicates]. Qed.
+
+(* transpose: nothing lost or invented (transpose_entries above), and the values stored for (j,i) in the result are those stored for (i,j) in the argument, in the same order *)
+Theorem transpose_duplicates : forall (A : Arith) (s : sparse A), wfS s ->
+  exists s', sp_transpose s = Ok s' /\ wfS s' /\ sp_rows s' = sp_cols s /\ sp_cols s' = sp_rows s /\
+    Permutation (ents s') (map tswap (ents s)) /\
+    forall i j, i < sp_rows s -> j < sp_cols s -> dvals s' j i = dvals s i j.
+Proof. intros A s. exact (transpose_duplicates_lemma s). Qed.
+Check transpose_duplicates : forall (A : Arith) (s : sparse A), wfS s ->
+  exists s', sp_transpose s = Ok s' /\ wfS s' /\ sp_rows s' = sp_cols s /\ sp_cols s' = sp_rows s /\
+    Permutation (ents s') (map tswap (ents s)) /\
+    forall i j, i < sp_rows s -> j < sp_cols s -> dvals s' j i = dvals s i j.
+Print Assumptions transpose_duplicates.
+Example transpose_duplicates_nonvacuous :
+  wfS dup_s /\ 1 < sp_rows dup_s /\ 1 < sp_cols dup_s /\ length (dvals dup_s 1 1) = 3 /\ ~ NoDupKeys dup_s.
+Proof. split; [exact dup_s_wf|]. split; [cbn; lia|]. split; [cbn; lia|]. split; [reflexivity|exact dup_s_has_duplicates]. Qed.
+
+(* transpose is the STABLE sort by row of the swapped listing: the triplet listing of the result, and the result itself (all six fields), are those of from_triplets on the swapped listing *)
+Theorem transpose_is_stable_sort : forall (A : Arith) (s : sparse A), wfS s ->
+  exists s', sp_transpose s = Ok s' /\ wfS s' /\ sp_rows s' = sp_cols s /\ sp_cols s' = sp_rows s /\
+    ents s' = sort_by_col (map tswap (ents s)) /\
+    sp_from_triplets (sp_cols s) (sp_rows s) (map tswap (ents s)) = Ok s'.
+Proof. intros A s. exact (transpose_is_stable_sort_lemma s). Qed.
+Check transpose_is_stable_sort : forall (A : Arith) (s : sparse A), wfS s ->
+  exists s', sp_transpose s = Ok s' /\ wfS s' /\ sp_rows s' = sp_cols s /\ sp_cols s' = sp_rows s /\
+    ents s' = sort_by_col (map tswap (ents s)) /\
+    sp_from_triplets (sp_cols s) (sp_rows s) (map tswap (ents s)) = Ok s'.
+Print Assumptions transpose_is_stable_sort.
+Example transpose_is_stable_sort_nonvacuous :
+  wfS dup_s /\ 1 < sp_rows dup_s /\ 1 < sp_cols dup_s /\ length (dvals dup_s 1 1) = 3 /\ ~ NoDupKeys dup_s.
+Proof. split; [exact dup_s_wf|]. split; [cbn; lia|]. split; [cbn; lia|]. split; [reflexivity|exact dup_s_has_duplicates]. Qed.
+
+(* P2 without duplicate-freeness: every in-range history on ANY well-formed storage returns and refines the same history of list operations (insert: replace the head; scale: map; transpose: swap) on the abstract matrix (i,j) |-> list of stored values; lookup = head, dense entry = last, product entry = sum of the final list *)
+Theorem history_with_duplicates : forall (A : Arith) (ops : list (sop A)) (s : sparse A), wfS s ->
+  ops_ok (sp_rows s) (sp_cols s) ops ->
+  exists s' D, sp_run ops s = Ok s' /\ wfS s' /\
+    (sp_rows s', sp_cols s') = dims_after (sp_rows s) (sp_cols s) ops /\
+    sp_to_dense s' = Ok D /\
+    forall i j, i < sp_rows s' -> j < sp_cols s' ->
+      dvals s' i j = dspec_run ops (dabs s) i j /\
+      sp_get s' i j = Ok (hd_error (dspec_run ops (dabs s) i j)) /\
+      mget D i j = Ok (last (dspec_run ops (dabs s) i j) (@Arith.zero A)) /\
+      sp_entry s' i j = suml (dspec_run ops (dabs s) i j).
+Proof. intros A ops s. exact (history_with_duplicates_lemma ops s). Qed.
+Check history_with_duplicates : forall (A : Arith) (ops : list (sop A)) (s : sparse A), wfS s ->
+  ops_ok (sp_rows s) (sp_cols s) ops ->
+  exists s' D, sp_run ops s = Ok s' /\ wfS s' /\
+    (sp_rows s', sp_cols s') = dims_after (sp_rows s) (sp_cols s) ops /\
+    sp_to_dense s' = Ok D /\
+    forall i j, i < sp_rows s' -> j < sp_cols s' ->
+      dvals s' i j = dspec_run ops (dabs s) i j /\
+      sp_get s' i j = Ok (hd_error (dspec_run ops (dabs s) i j)) /\
+      mget D i j = Ok (last (dspec_run ops (dabs s) i j) (@Arith.zero A)) /\
+      sp_entry s' i j = suml (dspec_run ops (dabs s) i j).
+Print Assumptions history_with_duplicates.
+Example history_with_duplicates_nonvacuous :   (* six steps on dup_s: two overwrites of the tripled position, a transposition, a scaling, an overwrite and a fresh insertion *)
+  wfS dup_s /\ ops_ok (sp_rows dup_s) (sp_cols dup_s) dup_ops /\ ~ NoDupKeys dup_s /\ length dup_ops = 6.
+Proof. split; [exact dup_s_wf|]. split; [exact dup_ops_ok|]. split; [exact dup_s_has_duplicates|reflexivity]. Qed.
+
+(* order_independent (above) with duplicates: two in-range triplet lists in which every position has the same sub-list of triplets (the same duplicates in the same relative order) give storages with the same value lists, lookups, dense entries and product entries everywhere *)
+Theorem from_triplets_same_duplicate_order : forall (A : Arith) r c (ts ts' : list (triplet A)),
+  (forall t, In t ts -> trow t < r /\ tcol t < c) -> (forall t, In t ts' -> trow t < r /\ tcol t < c) ->
+  (forall i j, i < r -> j < c -> filter (tmatch i j) ts = filter (tmatch i j) ts') ->
+  exists s s' D D', sp_from_triplets r c ts = Ok s /\ sp_from_triplets r c ts' = Ok s' /\
+    sp_to_dense s = Ok D /\ sp_to_dense s' = Ok D' /\
+    forall i j, i < r -> j < c ->
+      dvals s i j = dvals s' i j /\ sp_get s i j = sp_get s' i j /\ mget D i j = mget D' i j /\
+      sp_entry s i j = sp_entry s' i j.
+Proof. intros A r c ts ts'. exact (from_triplets_same_duplicate_order_lemma r c ts ts'). Qed.
+Check from_triplets_same_duplicate_order : forall (A : Arith) r c (ts ts' : list (triplet A)),
+  (forall t, In t ts -> trow t < r /\ tcol t < c) -> (forall t, In t ts' -> trow t < r /\ tcol t < c) ->
+  (forall i j, i < r -> j < c -> filter (tmatch i j) ts = filter (tmatch i j) ts') ->
+  exists s s' D D', sp_from_triplets r c ts = Ok s /\ sp_from_triplets r c ts' = Ok s' /\
+    sp_to_dense s = Ok D /\ sp_to_dense s' = Ok D' /\
+    forall i j, i < r -> j < c ->
+      dvals s i j = dvals s' i j /\ sp_get s i j = sp_get s' i j /\ mget D i j = mget D' i j /\
+      sp_entry s i j = sp_entry s' i j.
+Print Assumptions from_triplets_same_duplicate_order.
+Example from_triplets_same_duplicate_order_nonvacuous :   (* dup_ts and dup_ts' differ as lists and list the three (1,1) triplets in the same relative order *)
+  (forall t, In t dup_ts -> trow t < 2 /\ tcol t < 2) /\ (forall t, In t dup_ts' -> trow t < 2 /\ tcol t < 2) /\
+  (forall i j, i < 2 -> j < 2 -> filter (tmatch i j) dup_ts = filter (tmatch i j) dup_ts') /\ map (@tcol AQ) dup_ts <> map (@tcol AQ) dup_ts'.
+Proof. split; [exact dup_ts_in_range|]. split; [exact dup_ts'_in_range|]. split; [exact dup_ts_same_duplicate_order|]. vm_compute. discriminate. Qed.
